@@ -292,6 +292,56 @@ func c06Discipline(run *PropRun) {
 		drainFirst = before(drainB, drainI, waitB, waitI) && before(closeB, closeI, waitB, waitI)
 	}
 	run.AddObligation("tScreen.(*tScreen).disengage/stop-closed-and-tty-drained-before-wait", "discipline", BoolT(drainFirst), "disengage closes stopQ and drains the tty (which wakes a reader parked in tty.Read) before it waits for the goroutines")
+	// the package's own Tty implementations: Stop always ends the resize-watcher goroutine (closes its stop channel and
+	// waits for it), also when restoring the terminal settings fails - which is what happens when the terminal has hung
+	// up, the very case in which the read error makes the application shut down
+	for _, tn := range []string{"devTty", "stdIoTty"} {
+		fn := e.FindFunc(modPath + ".(*" + tn + ").Stop")
+		if fn == nil || len(fn.Blocks) == 0 {
+			continue
+		}
+		var must []*ssa.BasicBlock
+		for _, b := range fn.Blocks {
+			for _, in := range b.Instrs {
+				if c, ok := in.(*ssa.Call); ok {
+					if bi, isB := c.Common().Value.(*ssa.Builtin); isB && bi.Name() == "close" && chanName(c.Common().Args[0]) == "stopQ" {
+						must = append(must, b)
+					}
+					if callee := c.Common().StaticCallee(); callee != nil && callee.String() == "(*sync.WaitGroup).Wait" {
+						must = append(must, b)
+					}
+				}
+			}
+		}
+		ok := len(must) >= 2
+		for _, m := range must {
+			// is a return reachable from the entry without passing through m?
+			seen := map[*ssa.BasicBlock]bool{m: true}
+			var reach func(b *ssa.BasicBlock) bool
+			reach = func(b *ssa.BasicBlock) bool {
+				if seen[b] {
+					return false
+				}
+				seen[b] = true
+				if len(b.Instrs) > 0 {
+					if _, isRet := b.Instrs[len(b.Instrs)-1].(*ssa.Return); isRet {
+						return true
+					}
+				}
+				for _, s := range b.Succs {
+					if reach(s) {
+						return true
+					}
+				}
+				return false
+			}
+			if fn.Blocks[0] != m && reach(fn.Blocks[0]) {
+				ok = false
+			}
+		}
+		run.AddObligation(fmt.Sprintf("%s.(*%s).Stop/always-ends-the-watcher", tn, tn), "discipline", BoolT(ok),
+			"every path through Stop closes the watcher's stop channel and waits for it (no early return, e.g. when restoring the terminal settings fails): no goroutine is left behind after Fini")
+	}
 	// after Fini, PollEvent returns nil AT ONCE - also when events are still queued: a select between the stop channel
 	// and the queue picks at random among ready cases, so PollEvent has to look at the stop channel first, alone
 	if poll := e.FindFunc(modPath + ".(*baseScreen).PollEvent"); poll != nil && len(poll.Blocks) > 0 {
